@@ -658,3 +658,40 @@ Section Inv.
     destruct (sim_run t tr s s s' obs (sim_refl t s I) L H) as (s2 & R & _). eauto.
   Qed.
 End Inv.
+
+(* ------------------------------------------------------------------------------------------------ *)
+(* the atomicity of the decrement (Model.v: xstep) *)
+
+(* the extended relation is conservative: a schedule of atomic steps runs exactly as in the model *)
+Lemma xrun_atomic : forall init tr s s' obs ld, run init tr s = Some (s', obs) ->
+  xrun init (map (fun p => (fst p, XAtomic (snd p))) tr) (s, ld) = Some ((s', ld), obs).
+Proof.
+  induction tr as [|[t o] tr IH]; simpl; intros s s' obs ld H.
+  - inversion H; subst. reflexivity.
+  - destruct (step init t o s) as [[s1 ob]|] eqn:E; [|discriminate].
+    destruct (run init tr s1) as [[s2 obs2]|] eqn:R; [|discriminate].
+    inversion H; subst. rewrite (IH _ _ _ ld R). reflexivity.
+Qed.
+
+(* the two halves of a non-atomic decrement, scheduled next to each other, ARE the atomic drop: same enabledness, same
+   final state, same (empty) observation - for every state *)
+Lemma xdec_adjacent_is_drop : forall init t c s ld s' ob, ld t = None ->
+  step init t (ODrop c) s = Some (s', ob) ->
+  exists ld', xrun init [(t, XDecLoad c); (t, XDecStore)] (s, ld) = Some ((s', ld'), map (pair t) ob) /\ forall t', ld' t' = ld t'.
+Proof.
+  intros init t c s ld s' ob Hl H. simpl in H.
+  destruct (holds s (Heap t) c) eqn:Hh; [|discriminate]. inversion H; subst; clear H.
+  cbn [xrun xstep]. rewrite Hl, Hh. cbn [xrun xstep]. rewrite updn_same, Hh.
+  eexists. split; [reflexivity|].
+  intros t'. unfold updn. destruct (Nat.eq_dec t' t); [subst; symmetry; exact Hl|].
+  destruct (Nat.eq_dec t' t); [contradiction|reflexivity].
+Qed.
+
+Lemma xdec_adjacent_enabled_iff : forall init t c s ld, ld t = None ->
+  (step init t (ODrop c) s = None <-> xrun init [(t, XDecLoad c); (t, XDecStore)] (s, ld) = None).
+Proof.
+  intros init t c s ld Hl. cbn [xrun xstep step]. rewrite Hl.
+  destruct (holds s (Heap t) c) eqn:Hh.
+  - cbn [xrun xstep]. rewrite updn_same, Hh. split; discriminate.
+  - split; reflexivity.
+Qed.
